@@ -223,7 +223,8 @@ def largest_connected_hypergraph(H, in_place=False):
     6
 
     """
-    connected_nodes = max(connected_components(H), key=len)
+    # the null hypergraph has no component: nothing to keep and nothing to remove
+    connected_nodes = max(connected_components(H), key=len, default=set())
     if not in_place:
         return subhypergraph(H, nodes=connected_nodes).copy()
     else:
